@@ -243,7 +243,8 @@ Proof. exact section_roundtrip_blanks. Qed.
 
 (* 5c. the header part of write, section by section: the item lines write emits (write_sections
    is steps 1-9 of write, see C12_write_factors) are read by parse_body as the expected items
-   of the sections of the in-memory file AFTER the call — i.e. after STRT/STOP/STEP refresh,
+   of the sections of the in-memory file AFTER the call (ifmt is the numeric format of the index
+   column, with which STRT/STOP/STEP are printed) — i.e. after STRT/STOP/STEP refresh,
    unit alignment and standardize_value, the documented differences — for ~Version of the
    copy in which VERS was substituted; the ~Other text written is the unchanged text *)
 Theorem C03_written_sections_read_back :
@@ -402,8 +403,8 @@ Definition ex_m : mlas :=
                 (mksect ex_params false) (s2l "free text") [] [[CNum (s2l "1.0"); CNum (s2l "2.0")]; [CNum (s2l "5"); CNaN]] true)
          None.
 Example C03_ex_written_hyps :
-  match write_sections (fun f t => t) (fun a b => a) ex_fstr (fun _ => false) (fun a b => str_eqb a b)
-                       (Some W12) None ex_m with
+  match write_sections (fun f t => t) (fun f a b => a) ex_fstr (fun _ => false) (fun a b => str_eqb a b)
+                       (Some W12) None (s2l "%.5f") ex_m with
   | Some hs =>
       section_okb ex_fstr (hs_version hs) KVersion (s2l "#") (hs_vers_items hs) &&
       section_okb ex_fstr (hs_version hs) KWell (s2l "#") (s_items (l_well (hs_las hs))) &&
